@@ -8,11 +8,14 @@ package main
 import (
 	"fmt"
 	"math/rand"
+	"runtime"
 	"strings"
 	"sync"
 
+	"github.com/taurusgroup/multi-party-sig/pkg/math/curve"
 	"github.com/taurusgroup/multi-party-sig/pkg/party"
 	"github.com/taurusgroup/multi-party-sig/pkg/protocol"
+	"github.com/taurusgroup/multi-party-sig/protocols/doerner"
 )
 
 func init() { props["C17"] = runC17; props["C17RACE"] = runC17Race }
@@ -196,25 +199,39 @@ func runC17(c *ctx) {
 
 // runC17Race: concurrent use; meaningful only in the binary built with -race (the race detector aborts with exit code 66).
 func runC17Race(c *ctx) {
-	c.res.Rule = "4-8 goroutines call Accept/CanAccept/Listen/Result/Stop concurrently on the handlers of xor and FROST sessions (binary built with -race)"
+	c.res.Rule = "4-8 goroutines call Accept/CanAccept/Listen/Result/Stop concurrently on the MultiHandlers of xor and FROST sessions and the TwoPartyHandlers of Doerner key generation (binary built with -race)"
 	iters := 60
 	if c.thorough() {
 		iters = 600
 	}
 	for it := 0; it < iters; it++ {
 		var sp SessionSpec
-		if it%2 == 0 {
-			sp = specXOR(idsOf("a", "b", "c"), []byte{byte(it)})
-		} else {
-			sp = specFrostKeygen(idsOf("alice", "bob", "carl"), 1, false, []byte{byte(it)})
-		}
 		hs := map[party.ID]protocol.Handler{}
-		for _, id := range sp.IDs {
-			h, err := protocol.NewMultiHandler(sp.Start(id), sp.SessionID)
-			if err != nil {
-				continue
+		switch it % 3 {
+		case 0:
+			sp = specXOR(idsOf("a", "b", "c"), []byte{byte(it)})
+		case 1:
+			sp = specFrostKeygen(idsOf("alice", "bob", "carl"), 1, false, []byte{byte(it)})
+		default:
+			// TwoPartyHandler: Doerner key generation (receiver leads)
+			ids := idsOf("recv", "send")
+			sp = SessionSpec{Name: "doerner-keygen/twoparty", IDs: ids, SessionID: []byte{byte(it)}}
+			g := curve.Secp256k1{}
+			if h, err := protocol.NewTwoPartyHandler(doerner.Keygen(g, true, ids[0], ids[1], nil), sp.SessionID, true); err == nil {
+				hs[ids[0]] = h
 			}
-			hs[id] = h
+			if h, err := protocol.NewTwoPartyHandler(doerner.Keygen(g, false, ids[1], ids[0], nil), sp.SessionID, false); err == nil {
+				hs[ids[1]] = h
+			}
+		}
+		if it%3 != 2 {
+			for _, id := range sp.IDs {
+				h, err := protocol.NewMultiHandler(sp.Start(id), sp.SessionID)
+				if err != nil {
+					continue
+				}
+				hs[id] = h
+			}
 		}
 		var wg sync.WaitGroup
 		inbox := map[party.ID]chan *protocol.Message{}
@@ -268,11 +285,27 @@ func runC17Race(c *ctx) {
 						break
 					}
 				}
-				if it%3 == 0 {
+				if it%4 == 0 {
 					h.Stop()
 				}
 				once.Do(func() {})
 			}()
+			// stoppers with no other synchronisation with the handler: Stop at an arbitrary point of the session and again
+			// after the end (from two goroutines), so that every access Stop makes is paired with the acceptors' writes
+			if it%4 >= 2 {
+				for k := 0; k < 2; k++ {
+					k := k
+					wg.Add(1)
+					go func() {
+						defer wg.Done()
+						for i := 0; i < 50*(it%7)+k*1000; i++ {
+							runtime.Gosched()
+						}
+						h.Stop()
+						h.Stop()
+					}()
+				}
+			}
 		}
 		// wait until all handlers ended, then release acceptors
 		done := make(chan struct{})
